@@ -1,0 +1,20 @@
+//go:build verif
+
+// Contracts for the deductive verifier in /verif (comment-only file; compiled out
+// unless the build tag `verif` is set, and even then contains no executable code).
+package vectorstore
+
+// bit k of a packed vector
+//@ spec bitAt(b []uint64, k int) bool = (b[k/64] >> uint64(k%64)) & 1 == 1
+
+//@ func (*binaryQuantizer).encode
+//@   property C20
+//@   arith bv
+//@   requires bq.threshold != nil ==> len(bq.threshold) >= len(vector)
+//@   ensures bq.threshold == nil ==> result == nil
+//@   ensures bq.threshold != nil ==> len(result) == (len(vector)+63)/64
+//@   ensures bq.threshold != nil ==> forall(k, 0, len(vector), bitAt(result, k) == (vector[k] > bq.threshold[k]))
+//@   ensures bq.threshold != nil ==> forall(k, len(vector), len(result)*64, !bitAt(result, k))
+//@   loop 1 invariant rangeindex >= -1 && rangeindex < len(vector) && len(encoded) == (len(vector)+63)/64
+//@   loop 1 invariant forall(k, 0, rangeindex+1, bitAt(encoded, k) == (vector[k] > bq.threshold[k]))
+//@   loop 1 invariant forall(k, rangeindex+1, len(encoded)*64, !bitAt(encoded, k))
